@@ -6,6 +6,7 @@ import (
 	"go.1password.io/spg"
 	"verif/harness/core"
 	"verif/harness/ref"
+	"verif/harness/tape"
 )
 
 // liftWords returns other words accepted at once with the same outcome.
@@ -90,6 +91,12 @@ func f2gen(c *core.Ctx, g func() (*spg.Password, error), fallback, depth int, ke
 			c.Violation(key+" replay", fmt.Sprintf("the same words gave %v then %v", l.Out, ref0), map[string]interface{}{"recipe": lit, "words": base})
 			return
 		}
+		// the same words delivered one byte per read must give the same result
+		if msg := chunkedReplay(g, base, ref0); msg != "" {
+			c.Violation(key+" chunked", msg, map[string]interface{}{"recipe": lit, "words": base, "chunks": []int{1}})
+			return
+		}
+		c.Count("executions", 1)
 		for i := range base {
 			n, o := l.Bounds[i], l.Outs[i]
 			for _, lw := range liftWords(n, o) {
@@ -117,4 +124,20 @@ func f2gen(c *core.Ctx, g func() (*spg.Password, error), fallback, depth int, ke
 			}
 		}
 	})
+}
+
+// chunkedReplay re-runs g on the same words served one byte per Read call (a
+// legal io.Reader behaviour) and compares with the whole-word result.
+func chunkedReplay(g func() (*spg.Password, error), words []uint32, want GenOut) string {
+	saved := curTape()
+	defer install(saved)
+	t := tape.New(&tape.Script{W: words})
+	t.ChunkAt, t.Chunks, t.ChunkCycle = 1, []int{1}, true
+	install(t)
+	got := runGen(g)
+	t.EndCall()
+	if !sameOut(got, want) {
+		return fmt.Sprintf("the same random bytes delivered one byte per read give %q (%s%s) instead of %q", tokKey(got.Toks), got.Err, got.Panic, tokKey(want.Toks))
+	}
+	return ""
 }
